@@ -128,9 +128,9 @@ def Arith.isectImpl (ar : Arith) (a1 a2 b1 b2 : Pt) : Isect :=
   let vb : Pt := { x := ar.sub b2.x b1.x, y := ar.sub b2.y b1.y }
   let e  : Pt := { x := ar.sub b1.x a1.x, y := ar.sub b1.y a1.y }
   let kross := ar.cross va vb
-  let sqrKross := ar.mul kross kross
   let sqrLenA := ar.dot va va
-  if sqrKross > 0 then
+  -- `kross.abs() > 0` (since the fix cfe602f; before: the square of the cross product, which underflows)
+  if kross ≠ 0 then
     let s := ar.div (ar.cross e vb) kross
     if s < 0 ∨ s > 1 then .none else
     let t := ar.div (ar.cross e va) kross
@@ -140,8 +140,7 @@ def Arith.isectImpl (ar : Arith) (a1 a2 b1 b2 : Pt) : Isect :=
     .point (ar.midPoint a1 s va)
   else
     let kross2 := ar.cross e va
-    let sqrKross2 := ar.mul kross2 kross2
-    if sqrKross2 > 0 then .none else
+    if kross2 ≠ 0 then .none else
     if sqrLenA = 0 then .nonfinite else
     let sa := ar.div (ar.dot va e) sqrLenA
     let sb := ar.add sa (ar.div (ar.dot va vb) sqrLenA)
